@@ -74,6 +74,41 @@ func (p *progSuite) run(maxOps int, checkStart bool, prog string) (string, *post
 	return class, intp
 }
 
+// runsLine: consecutive Execute calls on one interpreter (stopping at the first error), as one case line for
+// the model (`runs` verb)
+func runsLine(o *suiteOut, maxOps int, checkStart bool, parts []string) string {
+	var hs []string
+	for _, p := range parts {
+		hs = append(hs, hx([]byte(p)))
+	}
+	cs := "0"
+	if checkStart {
+		cs = "1"
+	}
+	line := fmt.Sprintf("runs %d %s %s", maxOps, cs, strings.Join(hs, ","))
+	intp := postscript.NewInterpreter()
+	c := newCanon(intp)
+	intp.MaxOps = maxOps
+	intp.CheckStart = checkStart
+	class := "ok"
+	for _, p := range parts {
+		class = func() (cl string) {
+			defer func() {
+				if r := recover(); r != nil {
+					cl = "panic:" + strings.ReplaceAll(fmt.Sprint(r), "\n", " ")
+				}
+			}()
+			return errClass(intp.Execute(strings.NewReader(p)))
+		}()
+		if class != "ok" {
+			break
+		}
+	}
+	res := c.render(class)
+	o.emit(line, res, len(parts) > 1)
+	return res
+}
+
 func replayRun(o *suiteOut, line string) {
 	f := strings.Split(line, " ")
 	if len(f) != 4 {
@@ -440,4 +475,14 @@ func (g *progGen) dataProgram(n int, malformed bool) string {
 func init() {
 	suites["ops"] = suiteOps
 	replayers["run"] = replayRun
+	replayers["runs"] = func(o *suiteOut, line string) {
+		f := strings.Split(line, " ")
+		var m int
+		fmt.Sscan(f[1], &m)
+		var parts []string
+		for _, h := range strings.Split(f[3], ",") {
+			parts = append(parts, string(unhx(h)))
+		}
+		runsLine(o, m, f[2] == "1", parts)
+	}
 }
